@@ -2,6 +2,7 @@ package rules
 
 import (
 	"go/ast"
+	"go/token"
 	"go/types"
 
 	"verif/mlbcheck/chk"
@@ -176,9 +177,62 @@ func c04Election(p *chk.Prog, r *chk.Report) {
 			}
 		}
 	}
+	var keyFnObj types.Object
+	if !keyOK && len(rets) == 1 && len(retResults(rets[0])) == 1 {
+		// the key computed by a local key function: bytes.Compare(K(list[i]), K(list[j])) < 0 with
+		// K := func(node) []byte { h := sha256.Sum256([]byte(node + "#" + S)); return h[:] }
+		if b := lf.MatchNew("bytes.Compare(K(L[I]), K2(L2[J])) < 0", retResults(rets[0])[0]); b != nil {
+			k1, isId1 := ast.Unparen(b["K"]).(*ast.Ident)
+			k2, isId2 := ast.Unparen(b["K2"]).(*ast.Ident)
+			if isId1 && isId2 && lf.ObjOf(k1) != nil && lf.ObjOf(k1) == lf.ObjOf(k2) && lf.ObjOf(b["I"]) == sc.I && lf.ObjOf(b["J"]) == sc.J &&
+				lf.ObjOf(b["L"]) == list && lf.ObjOf(b["L2"]) == list && len(assignsTo(f, lf.ObjOf(k1))) == 1 {
+				if klit, isLit := ast.Unparen(f.LocalDef(k1)).(*ast.FuncLit); isLit && klit.Type.Params.NumFields() == 1 {
+					kf := f.LitFn(klit)
+					krets := kf.Graph().Returns()
+					if len(krets) == 1 && len(retResults(krets[0])) == 1 {
+						if hb := kf.MatchNew("H[:]", retResults(krets[0])[0]); hb != nil {
+							if m := kf.MatchWith(`sha256.Sum256([]byte(P + "#" + S))`, kf.Expand(hb["H"]), chk.H("P", isParamIdx(kf, 0))); m != nil {
+								keyOK = true
+								addrPart = m["S"]
+								keyFnObj = lf.ObjOf(k1)
+								// the key function reads nothing but its parameter and the address part
+								ast.Inspect(klit.Body, func(n ast.Node) bool {
+									id, ok := n.(*ast.Ident)
+									if !ok {
+										return true
+									}
+									v, isVar := kf.ObjOf(id).(*types.Var)
+									if !isVar || v.IsField() || v.Pkg() == nil || v.Parent() == v.Pkg().Scope() {
+										return true
+									}
+									if v.Pos() >= klit.Pos() && v.Pos() <= klit.End() {
+										return true
+									}
+									inAddr := false
+									ast.Inspect(addrPart, func(m2 ast.Node) bool {
+										if i2, ok := m2.(*ast.Ident); ok && kf.ObjOf(i2) == types.Object(v) {
+											inAddr = true
+										}
+										return true
+									})
+									if !inAddr {
+										keyOK = false
+									}
+									return true
+								})
+							}
+						}
+					}
+				}
+			}
+		}
+	}
 	x.Check("ShouldAnnounce:SORT-KEY", sc.Less.Pos(), keyOK, "", "the comparator is not `key(list[i]) < key(list[j])` with the same key expression sha256(list[k] + \"#\" + ipString) on both sides (the election is not an argmin of a per-node key)")
 	// free variables: the list and what the address part is made of
 	allowed := map[types.Object]bool{list: true}
+	if keyFnObj != nil {
+		allowed[keyFnObj] = true
+	}
 	if addrPart != nil {
 		ast.Inspect(addrPart, func(n ast.Node) bool {
 			if id, ok := n.(*ast.Ident); ok {
@@ -257,11 +311,58 @@ func c04Election(p *chk.Prog, r *chk.Report) {
 		}
 		n++
 		par := p.Parent(s)
+		var inner ast.Expr = s
+		for {
+			pe, isParen := par.(*ast.ParenExpr)
+			if !isParen {
+				break
+			}
+			inner, par = pe, p.Parent(pe)
+		}
 		if call, ok := par.(*ast.CallExpr); ok && f.MatchNew("poolMatchesNodeL2(_, _)", call) != nil {
 			return true
 		}
 		if be, ok := par.(*ast.BinaryExpr); ok && ast.Node(be) == win.Node {
 			return true
+		}
+		// a membership test of the local node in the candidate list: a node that is not a candidate can be refused
+		// early (it could not be element 0), as long as a candidate still gets to the election
+		isList := func(e ast.Expr) bool { return f.ObjOf(e) == list && list != nil }
+		inMember := false
+		if call, ok := par.(*ast.CallExpr); ok && f.MatchWith("slices.Contains(L, ME)", call, chk.H("L", isList)) != nil {
+			inMember = true
+		}
+		if be, ok := par.(*ast.BinaryExpr); ok && be.Op == token.EQL {
+			other := be.X
+			if be.X == inner {
+				other = be.Y
+			}
+			if elementOf(f, isList)(other) {
+				inMember = true
+			}
+		}
+		if inMember {
+			isMe := func(e ast.Expr) bool {
+				se, ok := ast.Unparen(e).(*ast.SelectorExpr)
+				return ok && f.IsField(se, myNode)
+			}
+			okReach := false
+			for _, e := range g.EdgesImplying(memberGuard(g, f, isList, isMe)) {
+				start := chk.Site{G: g, B: e.B.Succs[e.K], I: 0}
+				if len(e.B.Nodes) > 0 && e.B.Nodes[len(e.B.Nodes)-1] == win.Top {
+					okReach = true // the final comparison with element 0 itself
+					continue
+				}
+				if (&chk.Walk{G: g, From: start, Inclusive: true, Hit: func(m ast.Node) bool { return m == win.Top }}).Run().Found {
+					okReach = true
+				} else {
+					okReach = false
+					break
+				}
+			}
+			if okReach {
+				return true
+			}
 		}
 		bad2 = s
 		return true
